@@ -349,10 +349,9 @@ pub fn run(ctx: &Ctx, rep: &mut Report) {
             let prior = (i % 256) as u8;
             let case = || Json::obj().set("type", t).set("prior_first_byte", prior);
             let r = guard(|| {
-                let p = Packet::from_bytes(&[prior & 0xF0, 1, 0, 0]).ok()?; // token length 0 so it parses
-                let mut h = p.header;
-                // restore the low nibble through the public setter
-                h.set_token_length(prior & 0x0F);
+                // the header alone (HeaderRaw -> Header): a datagram parser may legitimately refuse version != 1
+                let raw = coap_lite::HeaderRaw::try_from(&[prior, 1, 0, 0][..]).ok()?;
+                let mut h = Header::from_raw(&raw);
                 let before = (h.get_version(), h.get_token_length());
                 let ty = match t {
                     0 => MessageType::Confirmable,
@@ -401,6 +400,16 @@ pub fn run(ctx: &Ctx, rep: &mut Report) {
             let tkl = (b & 0xF) as usize;
             let mut bytes = vec![b, 0x01, 0xAB, 0xCD];
             bytes.extend(std::iter::repeat(0x11).take(tkl.min(8)));
+            // header fields straight from the raw header ...
+            let hr = guard(|| coap_lite::HeaderRaw::try_from(&bytes[..]).map(|raw| Header::from_raw(&raw)));
+            match &hr {
+                Ok(Ok(h)) if h.get_version() == b >> 6 && crate::common::mtype_to_u8(h.get_type()) == (b >> 4) & 3 && h.get_token_length() == b & 0xF => {}
+                other => {
+                    rep.violation(viol("first-byte", i, "C05/first-byte-fields", format!("Header::from_raw of first byte {:#04x}: {:?}", b, other.as_ref().map(|r| r.as_ref().map(|h| (h.get_version(), h.get_token_length())))), Json::obj().set("first_byte", b)));
+                    return;
+                }
+            }
+            // ... and through the datagram parser (which may refuse version != 1)
             let r = guard(|| Packet::from_bytes(&bytes));
             match r {
                 Err(pn) => rep.violation(viol("first-byte", i, format!("C05/panic@{}", pn.site()), pn.message, Json::obj().set("first_byte", b))),
@@ -424,8 +433,10 @@ pub fn run(ctx: &Ctx, rep: &mut Report) {
                     }
                 }
                 Ok(Err(_)) => {
-                    if tkl <= 8 {
-                        rep.violation(viol("first-byte", i, "C05/first-byte-rejected", format!("first byte {:#04x} with a complete token rejected", b), Json::obj().set("first_byte", b)));
+                    if tkl <= 8 && b >> 6 == 1 {
+                        rep.violation(viol("first-byte", i, "C05/first-byte-rejected", format!("first byte {:#04x} (version 1) with a complete token rejected", b), Json::obj().set("first_byte", b)));
+                    } else if tkl <= 8 {
+                        rep.count("version-not-1-rejected-by-a-stricter-parser");
                     } else {
                         rep.count("tkl-9-15-rejected");
                     }
